@@ -65,7 +65,7 @@ def lex(src):
     toks.append(('eof', None))
     # Rust identifiers that are Lean keywords get a trailing underscore (not after `.`: field names are looked up)
     for i, (k, v) in enumerate(toks):
-        if k == 'id' and v in LEANKW and not (i > 0 and toks[i - 1] == ('op', '.')):
+        if k == 'id' and v in LEANKW and not (i > 0 and toks[i - 1] in (('op', '.'), ('op', '::'))):
             toks[i] = ('id', v + '_')
     return toks
 
